@@ -61,7 +61,8 @@ fn do_call(cas: &Cas<K>, stats: &Option<Arc<OrphanStats<K>>>, t: &[String]) -> S
             "reader" => match cas.get_reader(&parse_chunk(&t[1])) {
                 Ok(Some(mut r)) => { let mut b = vec![]; match std::io::Read::read_to_end(&mut r, &mut b) { Ok(_) => format!("bytes:{}", show_content(&b)), Err(x) => format!("err:io.{:?}", x.kind()) } }
                 Ok(None) => "none".into(), Err(x) => e(x) },
-            "range" => match cas.get_range(&parse_chunk(&t[1]), 0, u64::MAX) { Ok(Some(b)) => format!("bytes:{}", show_content(&b)), Ok(None) => "none".into(), Err(x) => e(x) },
+            "iter" => { let g = cas.read_index_state(); let ks: Vec<String> = g.iter().map(|(k, _)| hex(k)).collect(); format!("keys:[{}]", ks.join(";")) }
+            "range" => match cas.get_range(&parse_chunk(&t[1]), t.get(2).map(|x| x.parse().unwrap()).unwrap_or(0), t.get(3).map(|x| x.parse().unwrap()).unwrap_or(u64::MAX)) { Ok(Some(b)) => format!("bytes:{}", show_content(&b)), Ok(None) => "none".into(), Err(x) => e(x) },
             "size" => match cas.get_size(&parse_chunk(&t[1])) { Ok(Some(n)) => format!("size:{n}"), Ok(None) => "none".into(), Err(x) => e(x) },
             "checkpoint" => match cas.checkpoint() { Ok(()) => "ok".into(), Err(x) => e(x) },
             "delorphans" => match stats.as_ref().map(|s| s.delete_orphans()) {
